@@ -107,6 +107,7 @@ theorem mstepT_toM (s : TState) (st : MStep) : (mstepT u s st).toM = mstep u s.t
   | apply i e ts => show MState.mk _ _ _ = MState.mk _ _ _; congr 1; exact visitAllT_eq ..
   | unapply i e ts => show MState.mk _ _ _ = MState.mk _ _ _; congr 1; exact visitAllT_eq ..
   | changed i attr => show MState.mk _ _ _ = MState.mk _ _ _; congr 1; exact cascT_eq ..
+  | buffset i e ms => rfl
   | reconfig cfg' => rfl
 
 /-! ## 3. The finite re-packing of the registers -/
@@ -136,14 +137,15 @@ theorem compactDyn_on (i : Nat) (e : Int) :
   · rintro ⟨x, hx, e', ⟨he', hon⟩, rfl, rfl⟩; exact ⟨hon, x, hx, rfl, he'⟩
   · rintro ⟨hon, x, hx, rfl, he'⟩; exact ⟨x, hx, e, ⟨he', hon⟩, rfl, rfl⟩
 
-/-- The target table of `compactDyn`. -/
-def tgtTbl (u : Universe) (cfg : Config) (d : Dyn) : List ((Nat × Int) × List Nat) :=
+/-- The table `compactDyn` builds for a register `f` of lists per (item, effect): the non-empty entries of
+the configuration's items and their types' effects. -/
+def pairTbl {α : Type} (u : Universe) (cfg : Config) (f : Nat → Int → List α) : List ((Nat × Int) × List α) :=
   cfg.items.flatMap fun x => (effsOf u x).filterMap fun e =>
-    if (d.tgts x.id e).isEmpty then none else some ((x.id, e), d.tgts x.id e)
+    if (f x.id e).isEmpty then none else some ((x.id, e), f x.id e)
 
-theorem mem_tgtTbl {p : (Nat × Int) × List Nat} :
-    p ∈ tgtTbl u cfg d ↔ Named u cfg p.1.1 p.1.2 ∧ p.2 = d.tgts p.1.1 p.1.2 ∧ p.2 ≠ [] := by
-  simp only [tgtTbl, List.mem_flatMap, List.mem_filterMap, Named]
+theorem mem_pairTbl {α : Type} {f : Nat → Int → List α} {p : (Nat × Int) × List α} :
+    p ∈ pairTbl u cfg f ↔ Named u cfg p.1.1 p.1.2 ∧ p.2 = f p.1.1 p.1.2 ∧ p.2 ≠ [] := by
+  simp only [pairTbl, List.mem_flatMap, List.mem_filterMap, Named]
   constructor
   · rintro ⟨x, hx, e, he, h⟩
     split at h
@@ -155,24 +157,37 @@ theorem mem_tgtTbl {p : (Nat × Int) × List Nat} :
     refine ⟨x, hx, p.1.2, he, ?_⟩
     rw [hi, ← h2, if_neg (by simpa using hne)]
 
-theorem compactDyn_tgts (i : Nat) (e : Int) :
-    (Named u cfg i e → (compactDyn u cfg d).tgts i e = d.tgts i e) ∧
-    (¬ Named u cfg i e → (compactDyn u cfg d).tgts i e = []) := by
-  show (_ → (((tgtTbl u cfg d).find? (·.1 == (i, e))).map (·.2)).getD [] = _) ∧
-    (_ → (((tgtTbl u cfg d).find? (·.1 == (i, e))).map (·.2)).getD [] = _)
-  cases hf : (tgtTbl u cfg d).find? (·.1 == (i, e)) with
+/-- Look-up in that table: the register's entry for a named pair, nothing otherwise. -/
+theorem pairTbl_lookup {α : Type} (f : Nat → Int → List α) (i : Nat) (e : Int) :
+    (Named u cfg i e → (((pairTbl u cfg f).find? (·.1 == (i, e))).map (·.2)).getD [] = f i e) ∧
+    (¬ Named u cfg i e → (((pairTbl u cfg f).find? (·.1 == (i, e))).map (·.2)).getD [] = []) := by
+  cases hf : (pairTbl u cfg f).find? (·.1 == (i, e)) with
   | none =>
     refine ⟨fun hn => ?_, fun _ => rfl⟩
-    cases ht : d.tgts i e with
+    cases ht : f i e with
     | nil => rfl
     | cons t ts =>
-      have := List.find?_eq_none.1 hf ((i, e), d.tgts i e) (mem_tgtTbl.2 ⟨hn, rfl, by rw [ht]; simp⟩)
+      have := List.find?_eq_none.1 hf ((i, e), f i e) (mem_pairTbl.2 ⟨hn, rfl, by rw [ht]; simp⟩)
       simp at this
   | some p =>
-    have hp := mem_tgtTbl.1 (List.mem_of_find?_eq_some hf)
+    have hp := mem_pairTbl.1 (List.mem_of_find?_eq_some hf)
     have hk : p.1 = (i, e) := by simpa using List.find?_some hf
     rw [hk] at hp
     exact ⟨fun _ => hp.2.1, fun hn => absurd hp.1 hn⟩
+
+/-- The target table of `compactDyn`. -/
+def tgtTbl (u : Universe) (cfg : Config) (d : Dyn) : List ((Nat × Int) × List Nat) := pairTbl u cfg d.tgts
+
+theorem mem_tgtTbl {p : (Nat × Int) × List Nat} :
+    p ∈ tgtTbl u cfg d ↔ Named u cfg p.1.1 p.1.2 ∧ p.2 = d.tgts p.1.1 p.1.2 ∧ p.2 ≠ [] := mem_pairTbl
+
+theorem compactDyn_tgts (i : Nat) (e : Int) :
+    (Named u cfg i e → (compactDyn u cfg d).tgts i e = d.tgts i e) ∧
+    (¬ Named u cfg i e → (compactDyn u cfg d).tgts i e = []) := pairTbl_lookup d.tgts i e
+
+theorem compactDyn_bspecs (i : Nat) (e : Int) :
+    (Named u cfg i e → (compactDyn u cfg d).bspecs i e = d.bspecs i e) ∧
+    (¬ Named u cfg i e → (compactDyn u cfg d).bspecs i e = []) := pairTbl_lookup d.bspecs i e
 
 /-- On the configuration's items and their types' effects `compactDyn` changes nothing. -/
 theorem compactDyn_loaded_of_mem {x : Item} (hx : x ∈ cfg.items) :
@@ -197,12 +212,17 @@ theorem compactDyn_tgts_of_mem {x : Item} (hx : x ∈ cfg.items) {e : Int} (he :
     (compactDyn u cfg d).tgts x.id e = d.tgts x.id e :=
   (compactDyn_tgts x.id e).1 ⟨x, hx, rfl, he⟩
 
+theorem compactDyn_bspecs_of_mem {x : Item} (hx : x ∈ cfg.items) {e : Int} (he : e ∈ effsOf u x) :
+    (compactDyn u cfg d).bspecs x.id e = d.bspecs x.id e :=
+  (compactDyn_bspecs x.id e).1 ⟨x, hx, rfl, he⟩
+
 /-- The registers speak only about items of the configuration and effects of their types (what the messages
 of the real code ever mention; the driver's state after every message). -/
 structure DynFin (u : Universe) (cfg : Config) (d : Dyn) : Prop where
   loaded : ∀ i, d.loaded i = true → ∃ x ∈ cfg.items, x.id = i
   on : ∀ i e, d.on i e = true → Named u cfg i e
   tgts : ∀ i e, d.tgts i e ≠ [] → Named u cfg i e
+  bspecs : ∀ i e, d.bspecs i e ≠ [] → Named u cfg i e
 
 /-- On such registers the re-packing is the identity. -/
 theorem compactDyn_eq_self (h : DynFin u cfg d) : compactDyn u cfg d = d := by
@@ -230,28 +250,38 @@ theorem compactDyn_eq_self (h : DynFin u cfg d) : compactDyn u cfg d = d := by
       cases hd : d.tgts i e with
       | nil => rfl
       | cons t ts => exact absurd (h.tgts i e (by rw [hd]; simp)) hn
+  have hb : (compactDyn u cfg d).bspecs = d.bspecs := by
+    funext i e
+    by_cases hn : Named u cfg i e
+    · exact (compactDyn_bspecs i e).1 hn
+    · rw [(compactDyn_bspecs i e).2 hn]
+      cases hd : d.bspecs i e with
+      | nil => rfl
+      | cons t ts => exact absurd (h.bspecs i e (by rw [hd]; simp)) hn
   cases hc : compactDyn u cfg d with
-  | mk l o t =>
+  | mk l o t b =>
     cases d with
-    | mk l' o' t' =>
-      rw [hc] at hl ho ht
-      simp only at hl ho ht
-      rw [hl, ho, ht]
+    | mk l' o' t' b' =>
+      rw [hc] at hl ho ht hb
+      simp only at hl ho ht hb
+      rw [hl, ho, ht, hb]
 
 /-- The output of the re-packing is of that form, whatever the input. -/
 theorem dynFin_compactDyn : DynFin u cfg (compactDyn u cfg d) where
   loaded := fun i h => ((compactDyn_loaded i).1 h).2
   on := fun i e h => ((compactDyn_on i e).1 h).2
   tgts := fun i e h => Classical.byContradiction fun hn => h ((compactDyn_tgts i e).2 hn)
+  bspecs := fun i e h => Classical.byContradiction fun hn => h ((compactDyn_bspecs i e).2 hn)
 
 /-- Messages that name items of the configuration and effects of their types (the only ones the real code
 sends and the driver receives): `ItemLoaded` for a configured item, `EffectsStarted` for effects of the
-item's type, `EffectApplied` with a non-empty target list for such an effect; a new configuration must still
-contain what the registers mention. -/
+item's type, `EffectApplied` with a non-empty target list for such an effect, warfare-buff modifiers registered
+for such an effect; a new configuration must still contain what the registers mention. -/
 def StepFin (u : Universe) (cfg : Config) (d : Dyn) : MStep → Prop
   | .load i => ∃ x ∈ cfg.items, x.id = i
   | .start i es => ∀ e ∈ es, Named u cfg i e
   | .apply i e ts => ts ≠ [] → Named u cfg i e
+  | .buffset i e ms => ms ≠ [] → Named u cfg i e
   | .reconfig cfg' => DynFin u cfg' d
   | _ => True
 
@@ -261,29 +291,29 @@ theorem dynFin_mstep {s : MState} (h : DynFin u s.cfg s.dyn) (st : MStep) (ok : 
   cases st with
   | read S => exact h
   | load i =>
-    refine ⟨fun j hj => ?_, h.on, h.tgts⟩
+    refine ⟨fun j hj => ?_, h.on, h.tgts, h.bspecs⟩
     by_cases hji : j = i
     · exact hji ▸ ok
     · exact h.loaded j (by simpa [mstep, hji] using hj)
   | unload i =>
-    refine ⟨fun j hj => ?_, h.on, h.tgts⟩
+    refine ⟨fun j hj => ?_, h.on, h.tgts, h.bspecs⟩
     by_cases hji : j = i
     · simp [mstep, hji] at hj
     · exact h.loaded j (by simpa [mstep, hji] using hj)
   | start i es =>
-    refine ⟨h.loaded, fun j e hj => ?_, h.tgts⟩
+    refine ⟨h.loaded, fun j e hj => ?_, h.tgts, h.bspecs⟩
     by_cases hc : j = i ∧ e ∈ es
     · exact hc.1 ▸ ok e hc.2
     · exact h.on j e (by simpa [mstep, setOn, hc] using hj)
   | stop i es =>
-    refine ⟨h.loaded, fun j e hj => ?_, h.tgts⟩
+    refine ⟨h.loaded, fun j e hj => ?_, h.tgts, h.bspecs⟩
     by_cases hc : j = i ∧ e ∈ es
     · simp [mstep, setOn, hc] at hj
     · have hj' : (if j = i ∧ e ∈ es then false else s.dyn.on j e) = true := hj
       rw [if_neg hc] at hj'
       exact h.on j e hj'
   | apply i e ts =>
-    refine ⟨h.loaded, h.on, fun j f hj => ?_⟩
+    refine ⟨h.loaded, h.on, fun j f hj => ?_, h.bspecs⟩
     by_cases hc : j = i ∧ f = e
     · obtain ⟨rfl, rfl⟩ := hc
       by_cases hts : ts = []
@@ -291,13 +321,22 @@ theorem dynFin_mstep {s : MState} (h : DynFin u s.cfg s.dyn) (st : MStep) (ok : 
       · exact ok hts
     · exact h.tgts j f (by simpa [mstep, setTgts, hc] using hj)
   | unapply i e ts =>
-    refine ⟨h.loaded, h.on, fun j f hj => ?_⟩
+    refine ⟨h.loaded, h.on, fun j f hj => ?_, h.bspecs⟩
     by_cases hc : j = i ∧ f = e
     · obtain ⟨rfl, rfl⟩ := hc
       refine h.tgts j f fun h0 => hj ?_
       simp [mstep, setTgts, h0]
     · exact h.tgts j f (by simpa [mstep, setTgts, hc] using hj)
   | changed i attr => exact h
+  | buffset i e ms =>
+    refine ⟨h.loaded, h.on, h.tgts, fun j f hj => ?_⟩
+    have hj' : (if j = i ∧ f = e then ms else s.dyn.bspecs j f) ≠ [] := hj
+    by_cases hc : j = i ∧ f = e
+    · rw [if_pos hc] at hj'
+      obtain ⟨rfl, rfl⟩ := hc
+      exact ok hj'
+    · rw [if_neg hc] at hj'
+      exact h.bspecs j f hj'
   | reconfig cfg' => exact ok
 
 /-- **The driver's message step is the model's**: on registers of the form `DynFin` (which it keeps), for a
